@@ -974,6 +974,10 @@ class merge_plan:
 
             rewrote_blocker = self.generate_mangled_blocker(choices, x)
             l = self.state.add_blocker(choices, rewrote_blocker, key=x.key)
+            if not l:
+                # only the first registration of a blocker reports what it hits;
+                # vdb nodes loaded since then (forced) got past the limiter.
+                l = self.state.match_atom(rewrote_blocker, key=x.key)
             if l:
                 # blocker caught something. yay.
                 self._dprint(
